@@ -226,6 +226,10 @@ def r_generators(ctx, clauses):
                     ctx.ob("R-GENPROG", key + "::table", msg is None,
                            "rows / columns by sample, labelled by point name or Point_<index>, cell = named condition of the pair or 0" if msg is None else msg, loc(gen, gen))
     ctx.count("generator programs unrolled", n)
+    for cl in clauses:
+        obs = [o for o in ctx.obligations if o.rule == "R-GENPROG" and o.key.endswith("::" + cl)]
+        if n >= 8 and obs and all(o.ok for o in obs):
+            ctx.program_ok[("generators", cl)] = True
     return n
 
 
